@@ -1322,12 +1322,18 @@ def gen_tiled(ctx, idx):
     if not c['src_full'] and r.random() < 0.5:
         r.shuffle(c['src_frames'])
     c['mode'] = r.choice(['tpm', 'tpm', 'tpm', 'frames'])
-    if not c['src_full'] and nt > 1 and r.random() < (0.3 if c['mode'] == 'frames' else 0.15):
-        c['src_frames'] = c['src_frames'][:-1]                        # a sparse source without one of its tiles
+    c['missing_tile'] = None
+    if not c['src_full'] and nt > 1 and r.random() < (0.3 if c['mode'] == 'frames' else 0.3):
+        # a sparse source without one or two of its tiles (the usual slide that leaves out background tiles); the mask on a
+        # missing tile is either empty (then, with omit_empty_frames, no stored frame lacks a source frame) or not
+        c['src_frames'] = c['src_frames'][:-(1 if nt < 4 or r.random() < 0.6 else 2)]
+        c['missing_tile'] = r.choice(['empty', 'empty', 'covered'])
     c['tile_size'] = None
     if c['mode'] == 'tpm' and r.random() < 0.4:
         # an own tile size -- 40 % of the time the source's, spelled out (then every tile still has its source frame)
         c['tile_size'] = [tr, tc] if r.random() < 0.4 else [r.randint(1, 4), r.randint(1, 5)]
+    if c['mode'] == 'tpm' and c['missing_tile'] == 'empty':
+        c['tile_size'] = [tr, tc] if r.random() < 0.3 else None       # tiles coincide with the source's
     c['tile_size_spelling'] = r.choice(['tuple', 'list', 'numpy'])
     k = (idx + ctx.rng('rotation', 1).randrange(40)) % 40
     c['type'] = ['BINARY', 'FRACTIONAL', 'LABELMAP', 'BINARY'][k % 4]
@@ -1345,7 +1351,9 @@ def gen_tiled(ctx, idx):
     c['mfv'] = r.choice([1, 2, 100, 255, 255, 7])
     c['dot'] = r.choice([None, None, 'TILED_SPARSE', 'TILED_FULL', 'TILED_FULL']) if c['mode'] == 'tpm' else None
     c['dot_spelling'] = r.choice(['str', 'enum'])
-    c['omit'] = r.random() < 0.6 and c['dot'] != 'TILED_FULL'
+    if c['mode'] == 'tpm' and c['missing_tile'] == 'empty':
+        c['dot'] = r.choice([None, None, 'TILED_SPARSE'])
+    c['omit'] = (r.random() < 0.6 or (c['mode'] == 'tpm' and c['missing_tile'] == 'empty' and r.random() < 0.8)) and c['dot'] != 'TILED_FULL'
     c['empty'] = r.choice(['none', 'some_tiles', 'some_tiles', 'all', 'one_pixel', 'tiny'])
     c['fractions'] = r.choice(['dyadic', 'dyadic', 'near_tie', 'random'])
     c['density'] = r.choice([0.2, 0.5, 0.8])
@@ -1400,6 +1408,13 @@ def build_tiled_mask(c):
         for (r0, c0) in _tile_grid(c['rows'], c['cols'], tr, tc):
             if nr.random() < 0.5:
                 m[0, r0:r0 + tr, c0:c0 + tc] = 0
+    if c.get('missing_tile') == 'empty' and c['mode'] == 'tpm' and not c.get('bad'):
+        # nothing segmented where the source has no tile
+        str_, stc = c['src_tile']
+        grid_src = _tile_grid(c['rows'], c['cols'], str_, stc)
+        for k, (r0, c0) in enumerate(grid_src):
+            if k not in c['src_frames']:
+                m[0, r0:r0 + str_, c0:c0 + stc] = 0
     return m
 
 
@@ -1517,7 +1532,16 @@ def run_tiled(ctx, c, reqs, pending):
     pr = np.random.default_rng(c['read_perm_seed'])
     full_org = str(seg.get('DimensionOrganizationType', '')) == 'TILED_FULL'
     # which source frames the stored frames may be asked by: tile for tile the source's own tiling
-    by_frame = (not full_org) and (tr, tc) == (str_, stc) and (c['mode'] == 'frames' or len(src_corner) == nt_src)
+    # ... and when is a read by source frame answerable at all?  When every STORED frame is a tile the source image shows (a
+    # frame on a tile the source lacks names no source frame; the library then refuses reads by source frame).  Which tiles
+    # are stored follows from the mask alone: all of them, or with omit_empty_frames the non-empty ones (all if none is).
+    occupied = [bool(tiles_exp[k].any()) for k in range(len(grid))]
+    stored_tiles = [k for k in range(len(grid)) if occupied[k]] if (c['omit'] and any(occupied)) else list(range(len(grid)))
+    ambiguous_empty = c['omit'] and any(bool(tiles_alt[k].any()) != occupied[k] for k in range(len(grid)))
+    by_frame = ((not full_org) and (tr, tc) == (str_, stc) and not ambiguous_empty
+                and all(grid[k] in src_corner for k in stored_tiles))
+    ctx.hist('tiled_by_source_frame', 'answerable' if by_frame else 'not answerable' if not full_org and (tr, tc) == (str_, stc) else '-')
+    ctx.hist('tiled_missing_source_tile', c.get('missing_tile') or '-')
     for path, obj in objs.items():
         key = None
         if nonempty:
@@ -1600,6 +1624,11 @@ def run_tiled(ctx, c, reqs, pending):
                     if not (1 <= fno <= len(src_corner)) or src_corner[fno - 1] != g or (tr, tc) != (str_, stc):
                         bad = (f'frame {i + 1} at {g} names source frame {fno} as its spatially identical source, which shows '
                                f'{src_corner[fno - 1] if 1 <= fno <= len(src_corner) else "nothing (no such frame)"}')
+                elif (tr, tc) == (str_, stc) and g in src_corner:
+                    # every stored frame that shows a source tile names exactly that source frame -- whatever other tiles the
+                    # source image lacks (review of 41ae887)
+                    bad = (f'frame {i + 1} at {g} is the tile source frame {src_corner.index(g) + 1} shows, but names no source '
+                           'frame')
             if len(keys) != nf and not bad:
                 bad = 'per-frame items != NumberOfFrames'
             # dimension index values increase with the frame content order (frames are stored in dimension order)
